@@ -211,7 +211,11 @@ impl AsyncFileSystem for AsyncOverlayFS {
         }
         match self.read_path(path).await {
             Ok(p) => p.exists().await,
-            Err(_) => Ok(false),
+            // only "not found" means absent; any other failure of a layer must not be reported as absence
+            Err(err) => match err.kind() {
+                VfsErrorKind::FileNotFound => Ok(false),
+                _ => Err(err),
+            },
         }
     }
 
